@@ -34,6 +34,11 @@ use rustc_middle::ty::{self, Ty, TyCtxt};
 use rustc_span::{ExpnKind, Span};
 use std::fmt::Write as _;
 
+thread_local! {
+    /// enum types (possibly from other crates) whose discriminant some body reads
+    static SWITCHED_ADTS: std::cell::RefCell<Vec<DefId>> = std::cell::RefCell::new(Vec::new());
+}
+
 // ---------------------------------------------------------------- json helpers
 
 fn esc(s: &str) -> String {
@@ -394,7 +399,20 @@ fn rvalue_json<'tcx>(tcx: TyCtxt<'tcx>, body: &Body<'tcx>, rv: &Rvalue<'tcx>) ->
             uop,
             operand_json(tcx, body, a)
         ),
-        Rvalue::Discriminant(p) => format!("{{\"rv\":\"discr\",\"p\":{}}}", place_json(tcx, body, p)),
+        Rvalue::Discriminant(p) => {
+            let pty = p.ty(&body.local_decls, tcx).ty;
+            if let ty::Adt(adt, _) = peel(pty).kind() {
+                if adt.is_enum() && !adt.did().is_local() {
+                    SWITCHED_ADTS.with(|v| {
+                        let mut v = v.borrow_mut();
+                        if !v.contains(&adt.did()) {
+                            v.push(adt.did());
+                        }
+                    });
+                }
+            }
+            format!("{{\"rv\":\"discr\",\"p\":{}}}", place_json(tcx, body, p))
+        }
         Rvalue::Cast(kind, op, ty) => format!(
             "{{\"rv\":\"cast\",\"kind\":{},\"op\":{},\"ty\":{}}}",
             js(&format!("{:?}", kind)),
@@ -960,6 +978,32 @@ impl rustc_driver::Callbacks for Cb {
                     );
                 }
                 o.push_str("]}");
+            }
+            o.push_str("]}");
+        }
+        // external enums that are matched on: variant names and discriminants only
+        let ext: Vec<DefId> = SWITCHED_ADTS.with(|v| v.borrow().clone());
+        for did in ext {
+            let adt = tcx.adt_def(did);
+            if !first {
+                o.push_str(",\n");
+            }
+            first = false;
+            let _ = write!(
+                o,
+                "{{\"adt\":{},\"kind\":\"Enum\",\"pub\":true,\"reach\":true,\"external\":true,\"file\":\"\",\"line\":0,\"has_drop\":false,\"generics\":[],\"variants\":[",
+                js(&qpath(tcx, did))
+            );
+            for (vi, v) in adt.variants().iter_enumerated() {
+                if vi.index() > 0 {
+                    o.push(',');
+                }
+                let _ = write!(
+                    o,
+                    "{{\"name\":{},\"discr\":\"{}\",\"fields\":[]}}",
+                    js(&v.name.to_string()),
+                    adt.discriminant_for_variant(tcx, vi).val
+                );
             }
             o.push_str("]}");
         }
